@@ -15,7 +15,7 @@ func init() {
 		Explanation: "Decides structural clauses of C12: (R-C12-1) every access to Store.active.{m,f,w} (loads, stores, map operations, iteration steps) and to fields of cachedSecret holds Store.active.Mutex (must-held lock sets with inferred entry states for helpers; pre-publication code in NewStore/initializeActive/isActiveSetValid/loadCache up to the first point the *Store escapes is tabled), mutex operations are balanced -- the standard sufficient condition for absence of data races on that state; " +
 			"(R-C12-2) while the mutex is really held no call can reach a service request, net/http, singleflight, a sleep or a blocking channel operation, so a handle only ever waits for critical sections that never wait for the service; " +
 			"(R-C12-3) an installed api.SecretValue is never mutated (no field store outside its literal, no element store/copy/append into its Value); (R-C12-4) every removal from active.m after publication is edge-dominated by the not-present edge of a lookup of the same name in the handle map, and a handle is created only for a name present in active.m, and only non-nil entries with a fetched value are installed; " +
-			"(R-C12-5) the handle body and Secret.Get/GetString contain no panic, unchecked assertion or indexing. (R-C12-9) from every explicit Lock/RLock in the client library each path to a return passes the matching Unlock (called or deferred): no function exits holding the store's mutex. (R-C12-10) the entry behind a handle is never removed: the only removal is guarded by the handle registry (C19's R-C19-1).",
+			"(R-C12-5) the handle body and Secret.Get/GetString contain no panic, unchecked assertion or indexing. (R-C12-9) from every explicit Lock/RLock in the client library each path to a return passes the matching Unlock (called or deferred): no function exits holding the store's mutex. (R-C12-10) the entry behind a handle is never removed: the only removal is guarded by the handle registry (C19's R-C19-1). (R-C12-11) an entry taken over from the start-up cache has a value (C13's validity gate, R-C13-6).",
 		NotDecided:  "The order of values a reader observes (a statement about histories); race-detector executions.",
 		Trusted:     commonTrusted,
 		Assumptions: []string{"one Store guards its own maps (type-level lock identity; checked: no function handles two *Store values)", "Cache.Write is local persistence, not a service request (allowed under the lock)", "calls through logf/timeNow function values do not block on the service"},
